@@ -24,7 +24,7 @@ PROPERTY = "C14"
 CLAUSES = ["rebalances-exactly-scheduled-after-burn-in", "no-fill-before-first-rebalance",
            "fills-only-at-market-open", "equity-one-point-per-business-day",
            "equity-equals-marked-account-equity", "allocation-table-ffill"]
-N_QUICK = 48
+N_QUICK = 96
 N_THOROUGH = 9600
 BOUND = (
     "Sampled, not exhaustive. Case i = gen_case(seed, i) from random.Random('c14:<seed>:<i>'): 2-3 assets, synthetic "
@@ -181,7 +181,11 @@ def check_case(case):
     # 4. one equity point per business day whose close lies in [max(start, burn-in), end]
     want_eq = [stamp(t) for t in exp["closes"]]
     got_eq = [e[0] for e in obs["equity"]]
-    idx_ok = "error" not in obs["equity_df"] and obs["equity_df"]["index"] == [t.date().isoformat() for t in exp["closes"]]
+    if exp["closes"]:
+        idx_ok = ("error" not in obs["equity_df"]
+                  and obs["equity_df"]["index"] == [t.date().isoformat() for t in exp["closes"]])
+    else:
+        idx_ok = True       # burn-in after the last close: no point at all; the (empty) table is not looked at
     res.append(("equity-one-point-per-business-day", got_eq == want_eq and idx_ok,
                 {"n": len(got_eq), "first": got_eq[:1], "last": got_eq[-1:],
                  "frame_index_n": len(obs["equity_df"].get("index", []))},
@@ -232,7 +236,12 @@ def check_case(case):
 
 
 def _worker(args):
-    return check_case(gen_case(*args))
+    case = gen_case(*args)
+    try:
+        return check_case(case)
+    except Exception as exc:  # noqa: BLE001  (never raise out of run(): report it against every clause)
+        why = "check could not be evaluated: %s: %s" % (type(exc).__name__, exc)
+        return {"case": case, "results": [(c, False, why, None) for c in CLAUSES], "n_rebalances": 0, "n_fills": 0}
 
 
 def run(tier="quick", seed=0, budget_s=60.0, jobs=1):
